@@ -59,6 +59,11 @@ def load():
             return super().get_density_factor_and_mach_for_altitude(altitude)
 
     SimAtmo, SimVacuum = _SimAtmo, _SimVacuum
+    # the library's console log handler only adds noise to the check output (no oracle reads log text)
+    for h in list(pb.logger.handlers):
+        pb.logger.removeHandler(h)
+    import logging
+    pb.logger.addHandler(logging.NullHandler())
     reset_globals()
     return pb
 
